@@ -269,7 +269,7 @@ fn run(c: &ShapeCase) -> (Vec<(&'static str, u64)>, bool, Result<(), Failure>) {
 }
 
 pub fn parts(tier: Tier) -> (Vec<Part<Case>>, String) {
-    let seeds: u64 = tier.pick(120, 2_000);
+    let seeds: u64 = tier.pick(600, 4_000);
     let (ns, nm) = (single::N_SHAPES as u64, multi::N_SHAPES as u64);
     let total = (ns + nm) * seeds;
     let all = Part {
